@@ -113,7 +113,11 @@ def run_alone(kind, variant, n, prefix=None):
     env.reset()
     tr = []
     for a in acts:
-        out = env.step(a)
+        try:
+            out = env.step(a)
+        except Exception as ex:                 # the code under test raised: part of the observable trace
+            tr.append(("raised", type(ex).__name__, str(ex)[:80]))
+            break
         tr.append(snap(env, out))
         if out[2]:
             break
